@@ -142,6 +142,7 @@ type connLog struct {
 	responses int
 
 	inconclusive string
+	garbage      bool
 }
 
 func classify(resp *kmip.ResponseMessage) string {
@@ -255,6 +256,7 @@ loop:
 			lg.actions = append(lg.actions, "garbage")
 			send(r.Bytes(1+r.Intn(64)), 1)
 			lg.cutAt = len(lg.expect)
+			lg.garbage = true // random bytes may happen to be a complete frame: one Invalid Message answer is then legitimate
 			abrupt = true
 		case act == 11: // truncated message then close
 			lg.actions = append(lg.actions, "truncated+close")
@@ -382,6 +384,10 @@ func judge(c *core.Ctx, lg *connLog, label string) {
 	det := map[string]any{"actions": lg.actions, "expected": lg.expect, "received": lg.got, "history": label}
 	// never more, never other, never out of order: got must be a prefix of expect
 	for i, g := range lg.got {
+		if i == len(lg.expect) && lg.garbage && g == "!invalid" && len(lg.got) == len(lg.expect)+1 {
+			c.Count("garbage_that_was_a_frame", 1)
+			break
+		}
 		if i >= len(lg.expect) {
 			c.Violation("C08:extra-response", fmt.Sprintf("connection %d received %d responses for %d requests", lg.idx, len(lg.got), len(lg.expect)), det)
 			return
